@@ -4,8 +4,10 @@
 (* declarative spec of RestorePlan.tla evaluated on the outputs of the REAL *)
 (* litestream.CalcRestorePlan recorded by harness/cmd/restoreplan.          *)
 (* One log line = one file set with a list of requests and the real result  *)
-(* of each:  [id, files: <<<<lvl,min,max,ts>>..>>, reqs: <<<<tx,T>>..>>,     *)
-(*            res: <<[err, plan: <<<<lvl,min,max,ts>>..>>]..>>]              *)
+(* of each, as small integers (the driver's -obs output):                   *)
+(*   <<id, <<file..>>, <<req..>>, <<<<err, file..>>..>>>>                    *)
+(*   file = ((lvl*100+min)*100+max)*100+ts,  req = tx*100+T,                *)
+(*   err = 0 none | 1 gap | 2 notfound | 3 both | 4 other                   *)
 (* Verdict  = real output |= declarative spec  (VERDICT lines).             *)
 (* Binding  = real output = Planner(files, tx, T), the transcription        *)
 (*            (DIVERGENCE lines; reported, never a verdict).                *)
@@ -22,32 +24,36 @@ CONSTANT Groups       \* fan-out: root state -> Groups group states -> the log l
 \* l = 0: root; l = -g: group g; l = k > 0: log line k.  mm memoises, for line l, the decoded inputs, the REAL results,
 \* the reach set of every request (declarative) and the transcription's results (binding) - all functions of Log[l]
 VARIABLES l, mm
-ToFile(a) == File(a[1], a[2], a[3], a[4])
+ToFile(c) == File(c \div 1000000, (c \div 10000) % 100, (c \div 100) % 100, c % 100)
+ErrName(e) == <<"none", "gap", "notfound", "both", "other">>[e + 1]
+LId(k) == Log[k][1]
 \* (bound variables of \E are evaluated once; LET definitions would be re-evaluated at every use)
 Memo(k, v) ==
-  \E c \in {Log[k]} : \E fs \in {{ToFile(c.files[i]) : i \in DOMAIN c.files}} : \E seqs \in {SeqsOf(fs)} :
-    v = [files |-> fs,
-         real  |-> [j \in DOMAIN c.reqs |->
-                      [err |-> c.res[j].err, plan |-> [i \in DOMAIN c.res[j].plan |-> ToFile(c.res[j].plan[i])]]],
-         reach |-> [j \in DOMAIN c.reqs |-> ReachSet(fs, c.reqs[j][1], c.reqs[j][2])],
-         model |-> [j \in DOMAIN c.reqs |-> PlannerS(seqs, c.reqs[j][1], c.reqs[j][2])]]
+  \E c \in {Log[k]} : \E fs \in {{ToFile(c[2][i]) : i \in DOMAIN c[2]}} : \E seqs \in {SeqsOf(fs)} :
+  \E rq \in {[j \in DOMAIN c[3] |-> <<c[3][j] \div 100, c[3][j] % 100>>]} :
+    v = [id    |-> c[1],
+         files |-> fs,
+         reqs  |-> rq,
+         real  |-> [j \in DOMAIN rq |->
+                      [err |-> ErrName(c[4][j][1]), plan |-> [i \in 1..(Len(c[4][j]) - 1) |-> ToFile(c[4][j][i + 1])]]],
+         reach |-> [j \in DOMAIN rq |-> ReachSet(fs, rq[j][1], rq[j][2])],
+         model |-> [j \in DOMAIN rq |-> PlannerS(seqs, rq[j][1], rq[j][2])]]
 Init == l = 0 /\ mm = <<>>
 Next == \/ l = 0 /\ \E g \in 1..Groups : l' = -g /\ mm' = <<>>
         \/ l < 0 /\ \E k \in {k \in 1..Len(Log) : (k % Groups) + 1 = -l} : l' = k /\ Memo(k, mm')
 Spec == Init /\ [][Next]_<<l, mm>>
 
 IsLine == l > 0
-cur == Log[l]
 Files == mm.files
-J == IF IsLine THEN DOMAIN cur.reqs ELSE {}      \* root / group states: nothing to judge
-Tx(j) == cur.reqs[j][1]
-Ts(j) == cur.reqs[j][2]
+J == IF IsLine THEN DOMAIN mm.reqs ELSE {}      \* root / group states: nothing to judge
+Tx(j) == mm.reqs[j][1]
+Ts(j) == mm.reqs[j][2]
 Real(j) == mm.real[j]          \* the REAL result of request j
 R(j) == mm.reach[j]
 Ok(j) == Real(j).err = "none"
 
 \* A false clause is reported as a VERDICT line (name, log line, case id, request index) and evaluation continues.
-V(name, j, ok) == ok \/ PrintT(<<"VERDICT", name, l, cur.id, j>>)
+V(name, j, ok) == ok \/ PrintT(<<"VERDICT", name, l, mm.id, j>>)
 
 -----------------------------------------------------------------------------
 \* C08 -- one clause of the statement each
@@ -90,9 +96,9 @@ TsPrecise == \A j \in J : V("TsPrecise", j,
 \* binding: the transcription predicts the real output exactly (error class and the very files of the plan)
 Binding == \A j \in J :
    \/ mm.model[j] = Real(j)
-   \/ PrintT(<<"DIVERGENCE", l, cur.id, j>>)
+   \/ PrintT(<<"DIVERGENCE", l, mm.id, j>>)
 \* binding-level only: timestamp requests also reach the furthest TXID over the files created before T
 TsFurthest == \A j \in J :
    \/ FurthestTsP(Tx(j), Ts(j), Real(j), R(j)) \/ ~SoundP(Files, Tx(j), Ts(j), Real(j))
-   \/ PrintT(<<"NOTE", "TsFurthest", l, cur.id, j>>)
+   \/ PrintT(<<"NOTE", "TsFurthest", l, mm.id, j>>)
 =============================================================================
